@@ -1124,6 +1124,7 @@ package p9p
 //@ property C01
 //@ use wirekind wiredefr bytes noassoc
 //@ prune
+//@ timeout 45
 //@ foreach MessageTversion MessageRversion MessageTauth MessageRauth MessageTattach MessageRattach MessageRerror MessageTflush MessageRflush MessageTopen MessageRopen MessageTcreate MessageRcreate MessageTread MessageRread MessageTwrite MessageRwrite MessageTclunk MessageRclunk MessageTremove MessageRremove MessageTstat MessageRstat MessageTwstat MessageRwstat
 //@ logical f Fcall
 //@ dyn v : *Fcall
